@@ -170,11 +170,13 @@ class JobArrayer:
     def get_stale_descrs(self) -> list[JobDescription]:
         """Submits jobs that haven't been touched in a while"""
         currtime = time.time()
-        stales = [
-            descr
-            for descr in self.pending
-            if (currtime - self.pending_timestamps[descr] > self.stale_time)
-        ]
+        # Lock, otherwise a concurrent add_job could change the dicts while we iterate.
+        with self._lock:
+            stales = [
+                descr
+                for descr in self.pending
+                if (currtime - self.pending_timestamps[descr] > self.stale_time)
+            ]
         return stales
 
     def submit_pending_jobs(self, descr: JobDescription) -> None:
@@ -200,4 +202,5 @@ class JobArrayer:
         else:
             self._submit_jobs(jobs)
 
-        self.num_pending -= len(jobs)
+        with self._lock:
+            self.num_pending -= len(jobs)
